@@ -272,6 +272,28 @@ func (c *connection) sendWaitReply(callerCtx context.Context, msg Message) (Mess
 	timer := pool.GetTimer(timeout)
 	defer pool.PutTimer(timer)
 
+	// lateResult is consulted when the wait is about to end WITHOUT a reply (timeout, teardown,
+	// cancellation). It closes the transaction's slot first — route and deregister serialise on the
+	// key, so nothing can be routed after that — and then returns a result that made it into the slot
+	// before: a reply that raced the timer is handed to the caller, not silently dropped (it was taken
+	// off the handlers' path by the registry hit, so nobody else would ever see it).
+	lateResult := func() (replyResult, bool) {
+		e.replies.deregister(msg.SystemBytes())
+
+		select {
+		case res := <-ch:
+			if isData && res.err == nil {
+				if _, ok := res.msg.(*DataMessage); !ok {
+					return replyResult{}, false // a control response reusing the system bytes: not a reply
+				}
+			}
+
+			return res, true
+		default:
+			return replyResult{}, false
+		}
+	}
+
 	for {
 		select {
 		case res := <-ch:
@@ -288,6 +310,10 @@ func (c *connection) sendWaitReply(callerCtx context.Context, msg Message) (Mess
 
 			return res.msg, res.err
 		case <-timer.C:
+			if res, ok := lateResult(); ok {
+				return res.msg, res.err
+			}
+
 			// Protocol timeout: T3 (data) — a transaction failure.
 			if isData {
 				c.metrics.incDataMsgErr()
@@ -299,10 +325,18 @@ func (c *connection) sendWaitReply(callerCtx context.Context, msg Message) (Mess
 
 			return nil, timeoutErr
 		case <-e.ctx.Done():
+			if res, ok := lateResult(); ok {
+				return res.msg, res.err
+			}
+
 			// Connection teardown/drop — a lifecycle event, NOT a data transaction error, so a
 			// normal Close mid-transaction never inflates the cumulative error counter.
 			return nil, ErrConnClosed
 		case <-callerCtx.Done():
+			if res, ok := lateResult(); ok {
+				return res.msg, res.err
+			}
+
 			return nil, callerCtx.Err()
 		}
 	}
